@@ -471,6 +471,7 @@ func (r *realP) topo(down, def bool, target string) string {
 // ---------------- real store driver ----------------
 
 type store struct {
+	writes int
 	r    *fsmkit.Replica
 	fl   string
 	idx  uint64
@@ -627,6 +628,12 @@ func (st *store) put(i ixn) string {
 		e = &structs.ServiceIntentionsConfigEntry{Kind: structs.ServiceIntentions, Name: i.Dst}
 	}
 	src := &structs.SourceIntention{Name: i.Src, Peer: i.Peer}
+	// Precedence is a read-only, computed field; a client that pastes a source block it read
+	// elsewhere sends an arbitrary value, which the write must ignore and recompute.
+	st.writes++
+	if st.writes%2 == 0 {
+		src.Precedence = 1 + (st.writes/2+len(i.Src)+2*len(i.Dst))%9
+	}
 	if i.Act == "l7" {
 		src.Permissions = perms()
 	} else {
